@@ -74,15 +74,19 @@ inductive Query where
   | mk (recursive : Bool) (ctes : List Cte) (body : SetExpr) (orderBy : List (Expr × Bool)) (offset limit : Option Expr)
 end
 
+deriving instance Repr, BEq for Expr, FromItem, Join, FromClause, SetExpr, Cte, Query
+
 inductive MergeAction where
   | matchedUpdate (pred : Option Expr) (assign : List Expr)
   | matchedDelete (pred : Option Expr)
   | unmatched (pred : Option Expr) (cols : List String) (vals : List Expr)
+deriving Repr, BEq
 
 inductive Stmt where
   | query (q : Query)
   | merge (table : List String) (talias : Option String) (source : List String) (salias : Option String)
       (on : Expr) (actions : List MergeAction)
+deriving Repr, BEq
 
 instance : Inhabited Expr := ⟨.wildcard⟩
 instance : Inhabited SetExpr := ⟨.values []⟩
